@@ -68,7 +68,7 @@ def add_pyvc(rep: core.Report, ctx: core.Ctx, pid: str, files):
 
 
 # ---- one table for all properties ----------------------------------------------------------------
-ALL_CONTRACT_FILES = ["graph.py", "domains.py", "utils.py", "sum_product.py", "factorize.py", "formats.py", "derivations.py", "conjunction.py"]
+ALL_CONTRACT_FILES = ["graph.py", "domains.py", "utils.py", "sum_product.py", "factorize.py", "formats.py", "derivations.py", "conjunction.py", "multi.py"]
 
 
 def _semvc_laws(ctx, only=None):
@@ -136,9 +136,12 @@ SPEC = {
                 text="Law clauses: proof obligations (semvc) on the scalar meaning of the real method bodies of fggs/semirings.py, over the "
                      "reals extended with +-inf/NaN, discharged by z3 nonlinear arithmetic. Representation clause (Tensor vs PatternedTensor) "
                      "and exact-IEEE laws: bounded stand-in, never counted as proved."),
-    "C09": dict(level="other", pyvc=False, extra=[_own_subset("inplace_ownership", ["semirings.", "multi.multi_solve", "multi.multi_mv", "indices.PatternedTensor.solve"])],
-                text="Proved (ownership analysis): the solvers write only storage they allocated (arguments are left unmodified). Bounded: "
-                     "least solutions against dense Kleene iteration."),
+    "C09": dict(level="other", pyvc=True, extra=[_own_subset("inplace_ownership", ["semirings.", "multi.multi_solve", "multi.multi_mv", "indices.PatternedTensor.solve"])],
+                text="Proved: the elimination order of multi_solve (_order_nonterminals, with its nested recursive depth-first search "
+                     "verified against its own contract) is a permutation of the block indices -- every nonterminal is eliminated and "
+                     "back-substituted exactly once -- and raises no KeyError / IndexError when every block is indexed by indices of "
+                     "the shapes; (ownership analysis) the solvers write only storage they allocated (arguments are left unmodified). "
+                     "Bounded: least solutions against dense Kleene iteration."),
     "C10": dict(level="other", pyvc=True, extra=[],
                 text="Proved: the graph helpers preserve the symmetric/irreflexive adjacency invariant with exact view postconditions, "
                      "eliminate_node = remove v and make N(v) a clique, min_fill returns a permutation of the vertices and leaves its argument "
